@@ -469,3 +469,86 @@ def _tracer_res(prop):
 
 for _p in ("C10", "C11", "C12"):
     BOUNDED.setdefault(_p, []).append(("tracer-end-to-end", _tracer_res(_p)))
+
+
+# ---------------------------------------------------------------------------------------------- C19: real interpolants (bounded)
+@bounded("C19", "heightmaps-on-real-interpolants")
+def c19_maps(tier, seed):
+    """bounded stand-in for the assumed scipy / skimage contracts: random images and point sets, the real classes"""
+    import numpy as np
+    from gscrib.heightmaps import RasterHeightMap, SparseHeightMap
+    rnd = random.Random(seed or 1); npr = np.random.default_rng(seed or 1)
+    n = 12 if tier == "quick" else 400
+    bad, cases = [], 0
+    for i in range(n):
+        # ---- raster
+        hgt, wid = rnd.randint(4, 24), rnd.randint(4, 24)
+        bits16 = rnd.random() < 0.5
+        img = npr.integers(0, 65536 if bits16 else 256, size=(hgt, wid)).astype(np.uint16 if bits16 else np.uint8)
+        m = RasterHeightMap(img); sc = rnd.uniform(0.1, 20); m.set_scale(sc)
+        mx = 65535.0 if bits16 else 255.0
+        for _ in range(40):
+            cx, cy = rnd.randrange(wid), rnd.randrange(hgt); cases += 1
+            want = sc * float(np.float32(img[cy, cx] / mx))
+            got = m.get_depth_at(cx, cy)
+            if abs(got - want) > 1e-4 * max(1.0, abs(want)): bad.append({"map": "raster", "why": "not scale x stored height at pixel (x = column, y = row)", "x": cx, "y": cy, "want": want, "got": float(got), "shape": [hgt, wid]}); break
+        for (qx, qy) in [(-0.5, 1), (wid, 1), (1, -1e-9), (1, hgt), (wid + 3, hgt + 3)]:
+            cases += 1
+            if m.get_depth_at(qx, qy) != 0.0: bad.append({"map": "raster", "why": "non-zero outside the image", "x": qx, "y": qy}); break
+        if bad: break
+        tol = rnd.uniform(0.01, 0.5) * sc; m.set_tolerance(tol)
+        line = [rnd.randrange(wid), rnd.randrange(hgt), rnd.randrange(wid), rnd.randrange(hgt)]
+        out = m.sample_path(line); cases += 1
+        full = m._interpolate_line(np.asarray(line, dtype=float))
+        err = _check_samples(out, full, line, tol, lambda x, y: m.get_depth_at(x, y))
+        if err: bad.append({"map": "raster", "why": err, "line": line, "tolerance": tol}); break
+        # ---- sparse
+        k = rnd.randint(4, 30)
+        pts = np.column_stack([npr.uniform(0, 50, k), npr.uniform(0, 50, k), npr.uniform(-5, 5, k)])
+        pts[:4, :2] = [[0, 0], [50, 0], [0, 50], [50, 50]]
+        s = SparseHeightMap(pts); sc2 = rnd.uniform(0.1, 10); s.set_scale(sc2)
+        zmin, zmax = pts[:, 2].min(), pts[:, 2].max()
+        for row in pts:
+            cases += 1
+            if abs(s.get_depth_at(row[0], row[1]) - sc2 * row[2]) > 1e-7: bad.append({"map": "sparse", "why": "not scale x stored height at a data point", "point": row.tolist()}); break
+        for _ in range(60):
+            qx, qy = rnd.uniform(0, 50), rnd.uniform(0, 50); cases += 1
+            v = s.get_depth_at(qx, qy)
+            if not (sc2 * zmin - 1e-7 <= v <= sc2 * zmax + 1e-7): bad.append({"map": "sparse", "why": "value outside [min, max] of the data inside the hull", "x": qx, "y": qy, "v": float(v)}); break
+        for (qx, qy) in [(-1, 10), (51, 10), (10, -0.001), (10, 50.5)]:
+            cases += 1
+            if s.get_depth_at(qx, qy) != 0.0: bad.append({"map": "sparse", "why": "non-zero outside the hull", "x": qx, "y": qy}); break
+        if bad: break
+        tol2 = rnd.uniform(0.05, 1.0); s.set_tolerance(tol2)
+        line2 = [rnd.uniform(1, 49), rnd.uniform(1, 49), rnd.uniform(1, 49), rnd.uniform(1, 49)]
+        out2 = s.sample_path(line2); cases += 1
+        full2 = s._interpolate_line(np.asarray(line2, dtype=float))
+        err = _check_samples(out2, full2, line2, tol2, lambda x, y: s.get_depth_at(x, y), exact_ends=True)
+        if err: bad.append({"map": "sparse", "why": err, "line": line2, "tolerance": tol2}); break
+    res = {"name": "heightmaps-on-real-interpolants", "cases": cases, "bounded": True, "status": "violated" if bad else "held",
+           "summary": f"{n} random 8/16-bit images (4..24 px) and {n} random point sets (4..30 points): exact at stored samples (x = column, y = row), zero outside, sparse values inside "
+                      f"[min, max] in the hull; sample_path: ends at the line ends, samples on the line in order, own heights, every dropped sample < tolerance from the previously kept one"}
+    if bad: res["replay"] = {"reproduced": True, "path": _save("C19", "heightmaps", bad[0]), "witness": bad[0]}
+    return res
+
+
+def _check_samples(out, full, line, tol, depth, exact_ends=False):
+    import numpy as np
+    if len(out) < 1: return "empty result"
+    x1, y1, x2, y2 = line
+    if exact_ends or True:
+        if abs(out[0][0] - round(x1) if not exact_ends else out[0][0] - x1) > 1e-9 or abs(out[0][1] - (round(y1) if not exact_ends else y1)) > 1e-9: return "does not start at the requested line end"
+        if abs(out[-1][0] - (round(x2) if not exact_ends else x2)) > 1e-9 or abs(out[-1][1] - (round(y2) if not exact_ends else y2)) > 1e-9: return "does not end at the requested line end"
+    # subsequence of the full sampling, in order, with the map's own height
+    j = 0
+    kept_idx = []
+    for p in out:
+        while j < len(full) and not np.array_equal(full[j], p): j += 1
+        if j == len(full): return "a returned point is not one of the line samples, or the order is broken"
+        kept_idx.append(j)
+        if abs(p[2] - depth(p[0], p[1])) > 1e-9: return "a returned point does not carry the map's own height"
+    last = 0
+    for idx in range(len(full)):
+        if idx in kept_idx: last = idx; continue
+        if abs(full[idx][2] - full[last][2]) >= tol: return f"dropped sample {idx} differs from the previously kept one by {abs(full[idx][2] - full[last][2])} >= tolerance"
+    return None
